@@ -1,14 +1,165 @@
-(* C05 - statements only (first version: non-vacuity Examples; the theorems are added below as they are proved) *)
+(* C05  Encryption-protected values are never exposed on an unencrypted link.
+   Statements only; proofs live in AttSrv/AttSrvProofsC05.v (non-interference, integrity, error codes) and
+   AttSrv/AttSrvProofsVal.v (refinement of the reference semantics, used by the monitor theorem). *)
 From BT Require Import Base.ListX AttDb.AttDbModel NQueue.NQueueModel AttSrv.AttSrvModel AttSrv.AttSrvSpecVal
-  AttSrv.AttSrvSpecC05 AttSrv.AttSrvExamplesVal.
+  AttSrv.AttSrvSpecC05 AttSrv.AttSrvProofsVal AttSrv.AttSrvProofsC05 AttSrv.AttSrvExamplesVal.
 Local Open Scope N_scope.
 
-Example C05_wf_nonvacuous : wf cfg_v_wq10 /\ wf cfg_v_enc_server_none /\ wf cfg_v_handlers.
+(* ---- which characteristics are protected: the innermost explicit choice among characteristic, service and
+   server options (requires_encryption -> yes, no_encryption_required -> no, both on one level -> no,
+   may_require_encryption alone -> inherit) IS what characteristic_requires_encryption computes, for every
+   placement of the three options on the three levels *)
+Theorem C05_protection_is_innermost_choice :
+  forall c s ch, spec_protected c s ch = char_requires_encryption c s ch.
+Proof. exact spec_protected_eq. Qed.
+Print Assumptions C05_protection_is_innermost_choice.
+
+(* ---- "never returned": non-interference. [low_eq c st1 st2]: the two server states agree on everything but
+   the values of protected characteristics. Unwinding: for EVERY configuration, any two such states, any
+   operation acting through a connection that is not encrypted in that state (l2cap_input with any PDU = all 14
+   request handlers; l2cap_output = notifications and indications; the application's notify / indicate / sec /
+   disc / setval), the outputs are identical and the states stay low-equivalent. *)
+Theorem C05_noninterference_step :
+  forall c st1 st2 o, low_eq c st1 st2 -> unenc_act st1 o ->
+    low_eq c (fst (srv_step c st1 o)) (fst (srv_step c st2 o))
+    /\ obs c o (snd (srv_step c st1 o)) = obs c o (snd (srv_step c st2 o)).
+Proof. exact step_ni. Qed.
+Print Assumptions C05_noninterference_step.
+
+(* histories of any length: as long as every request / output acts through a connection that is unencrypted
+   at that moment (other connections may be encrypted), the two runs produce the same responses, notifications
+   and indications. [observe] hides only the harness' own look at a protected variable. *)
+Theorem C05_noninterference :
+  forall c ops st1 st2, low_eq c st1 st2 -> unenc_hist c st1 ops ->
+    observe c (srv_run c st1 ops) = observe c (srv_run c st2 ops).
+Proof. exact run_ni. Qed.
+Print Assumptions C05_noninterference.
+
+(* the property as worded: the same history (no link ever encrypted; otherwise arbitrary: any number of
+   requests of any kind from any connection, key / no key, disconnects, notifications) on two value stores
+   that differ only in protected values yields identical responses and notifications *)
+Theorem C05_noninterference_never_encrypted :
+  forall c v1 v2 ops,
+    low_eq c (set_vals (srv_init c) v1) (set_vals (srv_init c) v2) -> forallb no_enc_on ops = true ->
+    observe c (srv_run c (set_vals (srv_init c) v1) ops) = observe c (srv_run c (set_vals (srv_init c) v2) ops).
+Proof. exact run_ni_never_encrypted. Qed.
+Print Assumptions C05_noninterference_never_encrypted.
+
+(* ---- "never modified": a request through an unencrypted connection changes no protected value
+   (Write Request, Write Command, Prepare Write, Execute Write, and everything else) *)
+Theorem C05_protected_values_unchanged :
+  forall c st cid pdu n st' rs, unenc st cid -> att_input c st cid pdu n = Some (st', rs) -> same_prot c st st'.
+Proof. exact att_input_integrity. Qed.
+Print Assumptions C05_protected_values_unchanged.
+
+(* ---- the rejection, per attribute access: a protected value or protected CCCD on an unencrypted link is
+   refused without any effect, with Insufficient Authentication (0x05) when no key exists (pairing status no_key)
+   and Insufficient Encryption (0x0F) otherwise. Every request path ends in these two access functions. *)
+Theorem C05_protected_read_refused :
+  forall c st cid k a i off maxlen st' rc d,
+    get_conn st cid = Some k -> encrypted k = false -> protected_attr c a = true ->
+    access_read c st cid a i off maxlen = Some (st', rc, d) ->
+    st' = st /\ rc = Err (sec_code k) /\ d = [].
+Proof. exact protected_read_refused. Qed.
+Print Assumptions C05_protected_read_refused.
+
+Theorem C05_protected_write_refused :
+  forall c st cid k a off data st' rc,
+    get_conn st cid = Some k -> encrypted k = false -> protected_attr c a = true ->
+    access_write c st cid a off data = Some (st', rc) ->
+    st' = st /\ rc = Err (sec_code k).
+Proof. exact protected_write_refused. Qed.
+Print Assumptions C05_protected_write_refused.
+
+(* ---- the monitor (reference link security beside the trace) accepts every trace of the model: EVERY
+   configuration, histories of any length of requests other than Read By Type / Read Multiple and without
+   l2cap_output. (Those three are judged by scanning the response for protected handles; that they show no
+   protected byte is C05_noninterference, the scan itself is tied, not proved.) The response to Read, Read Blob,
+   Write Request, Prepare Write, Execute Write on a protected attribute is exactly  01 <opcode> <handle> <05|0F>. *)
+Theorem C05_monitor_sound :
+  forall c ops, forallb plain_op ops = true -> monitor c (srv_run c (srv_init c) ops) = None.
+Proof. exact monitor_sound. Qed.
+Print Assumptions C05_monitor_sound.
+
+(* ---- NOT proved (no admitted statement anywhere): the protected CCCD bits of the whole connection are unchanged
+   by a request on an unencrypted link. Per attribute this is C05_protected_write_refused (a write through the
+   protected CCCD attribute changes nothing); the statement below additionally needs that a write to ANOTHER
+   characteristic's CCCD leaves these two bits alone, i.e. that cccd_position is injective on the declared CCCDs
+   (the sorted CCCD indices are a permutation) - C09's subject. Monitored / tied only. *)
+Definition C05_protected_cccd_unchanged_full : Prop :=
+  forall c st cid pdu n st' rs k k' i s ch cci,
+    wf c -> get_conn st cid = Some k -> encrypted k = false ->
+    att_input c st cid pdu n = Some (st', rs) -> get_conn st' cid = Some k' ->
+    attribute_at c i = Some (ACccd s ch cci) -> char_requires_encryption c s ch = true ->
+    cccd_get (cccd k') (cccd_position c cci) = cccd_get (cccd k) (cccd_position c cci).
+
+(* ---- non-vacuity *)
+(* cfg_v_wq10: characteristic 3 (handle 11, one byte) requires encryption, characteristic 0 (handle 3) does not *)
+Example C05_hypotheses_nonvacuous :
+  wf cfg_v_wq10 /\ prot cfg_v_wq10 3 = true /\ prot cfg_v_wq10 0 = false
+  /\ wf cfg_v_enc_server_none /\ map (prot cfg_v_enc_server_none) (seq 0 13) = [false; false; false; true; true; false; false; true; false; true; true; false; true].
 Proof. repeat split; vm_compute; reflexivity. Qed.
 
-(* the monitor accepts the model's own trace of a small history *)
-Example C05_monitor_accepts_model_trace :
-  monitor cfg_v_wq10 (srv_run cfg_v_wq10 (srv_init cfg_v_wq10)
-    [OpIn O [10; 3; 0] 23; OpIn O [18; 3; 0; 1; 2; 3; 4] 23; OpVal O; OpIn 1 [22; 3; 0; 1; 0; 9; 9] 23; OpVal O;
-     OpIn 2 [22; 3; 0; 0; 0; 7] 23; OpIn 1 [24; 1] 23; OpVal O; OpIn O [10; 11; 0] 23; OpSec O true 1; OpIn O [10; 11; 0] 23]) = None.
+(* two stores that differ in the protected byte (0x94 / 0x2A) *)
+Definition store_a : list (list N) := [[1; 12; 23; 34]; [38; 49]; init_val 2 (mkChar (U16 0) HNone (VBind 20 false) false false false false false false None [] enc_none); [148]].
+Definition store_b : list (list N) := [[1; 12; 23; 34]; [38; 49]; init_val 2 (mkChar (U16 0) HNone (VBind 20 false) false false false false false false None [] enc_none); [42]].
+
+Example C05_low_equivalent_stores :
+  low_eq cfg_v_wq10 (set_vals (srv_init cfg_v_wq10) store_a) (set_vals (srv_init cfg_v_wq10) store_b).
+Proof.
+  repeat split. intros g P. destruct g as [|[|[|[|g]]]]; try reflexivity.
+  - vm_compute in P. discriminate P.
+  - destruct g; reflexivity.
+Qed.
+
+(* the unencrypted client tries every path (Read, Read Blob, Read By Type, Read Multiple, Write, Write Command,
+   Prepare + Execute) with and without a key: nothing depends on the protected byte, the variable is untouched *)
+Definition probe_history : list srv_op :=
+  [OpIn O [10; 11; 0] 23; OpIn O [12; 11; 0; 0; 0] 23; OpIn O [8; 1; 0; 255; 255; 16; 42] 23; OpIn O [14; 3; 0; 11; 0] 23;
+   OpIn O [18; 11; 0; 7] 23; OpIn O [82; 11; 0; 7] 23; OpIn O [22; 11; 0; 0; 0; 7] 23; OpIn O [24; 1] 23; OpVal 3;
+   OpSec O false 2; OpIn O [10; 11; 0] 23; OpIn O [18; 11; 0; 7] 23; OpIn O [22; 11; 0; 0; 0; 7] 23; OpIn O [10; 3; 0] 23].
+
+Example C05_same_outputs_while_unencrypted :
+  map snd (srv_run cfg_v_wq10 (set_vals (srv_init cfg_v_wq10) store_a) probe_history)
+  = [OBytes [1; 10; 11; 0; 5]; OBytes [1; 12; 11; 0; 5]; OBytes [1; 8; 1; 0; 10]; OBytes [1; 14; 11; 0; 5];
+     OBytes [1; 18; 11; 0; 5]; OBytes []; OBytes [1; 22; 11; 0; 5]; OBytes [25]; OValue [148] None;
+     ONone; OBytes [1; 10; 11; 0; 15]; OBytes [1; 18; 11; 0; 15]; OBytes [1; 22; 11; 0; 15]; OBytes [11; 1; 12; 23; 34]]
+  /\ observe cfg_v_wq10 (srv_run cfg_v_wq10 (set_vals (srv_init cfg_v_wq10) store_a) probe_history)
+     = observe cfg_v_wq10 (srv_run cfg_v_wq10 (set_vals (srv_init cfg_v_wq10) store_b) probe_history).
+Proof. split; vm_compute; reflexivity. Qed.
+
+(* ... while an encrypted link does see the difference (the theorem is not vacuous) *)
+Example C05_encrypted_link_reads_the_value :
+  map snd (srv_run cfg_v_wq10 (set_vals (srv_init cfg_v_wq10) store_a) [OpSec O true 1; OpIn O [10; 11; 0] 23]) = [ONone; OBytes [11; 148]]
+  /\ map snd (srv_run cfg_v_wq10 (set_vals (srv_init cfg_v_wq10) store_b) [OpSec O true 1; OpIn O [10; 11; 0] 23]) = [ONone; OBytes [11; 42]].
+Proof. split; vm_compute; reflexivity. Qed.
+
+(* the monitor is not trivially accepting: one rejected trace per clause *)
+Example C05_monitor_rejects_leak_by_read :
+  monitor cfg_v_wq10 [(OpIn O [10; 11; 0] 23, OBytes [11; 34])] = Some (0%nat, t_leak_read).
 Proof. vm_compute. reflexivity. Qed.
+
+Example C05_monitor_rejects_leak_by_read_by_type :
+  monitor cfg_v_wq10 [(OpIn O [8; 1; 0; 255; 255; 16; 42] 23, OBytes [9; 3; 11; 0; 34])] = Some (0%nat, t_leak_read)
+  /\ monitor cfg_v_wq10 [(OpSec O true 1, ONone); (OpIn O [8; 1; 0; 255; 255; 16; 42] 23, OBytes [9; 3; 11; 0; 34])] = None.
+Proof. split; vm_compute; reflexivity. Qed.
+
+Example C05_monitor_rejects_leak_by_read_multiple :
+  monitor cfg_v_wq10 [(OpIn O [14; 3; 0; 11; 0] 23, OBytes [15; 1; 12; 23; 34; 34])] = Some (0%nat, t_leak_read).
+Proof. vm_compute. reflexivity. Qed.
+
+(* cfg_v_enc_server_none: handle 11 = value of 2a03 (indicate, requires encryption) *)
+Example C05_monitor_rejects_leak_by_indication :
+  monitor cfg_v_enc_server_none [(OpOut O 23, OBytes [29; 11; 0; 1; 2])] = Some (0%nat, t_leak_notify)
+  /\ monitor cfg_v_enc_server_none [(OpSec O true 1, ONone); (OpOut O 23, OBytes [29; 11; 0; 1; 2])] = None.
+Proof. split; vm_compute; reflexivity. Qed.
+
+Example C05_monitor_rejects_accepted_write :
+  monitor cfg_v_wq10 [(OpIn O [18; 11; 0; 7] 23, OBytes [19])] = Some (0%nat, t_modified_unencrypted)
+  /\ monitor cfg_v_wq10 [(OpIn O [82; 11; 0; 7] 23, OBytes []); (OpVal 3, OValue [7] None)] = Some (1%nat, t_modified_unencrypted).
+Proof. split; vm_compute; reflexivity. Qed.
+
+Example C05_monitor_rejects_wrong_error_code :                    (* the behaviour before fix/C07-check-write-connection *)
+  monitor cfg_v_wq10 [(OpSec O false 1, ONone); (OpIn O [22; 11; 0; 0; 0; 7] 23, OBytes [1; 22; 11; 0; 5])] = Some (1%nat, t_error_code)
+  /\ monitor cfg_v_wq10 [(OpIn O [10; 11; 0] 23, OBytes [1; 10; 11; 0; 15])] = Some (0%nat, t_error_code).
+Proof. split; vm_compute; reflexivity. Qed.
